@@ -53,7 +53,18 @@ func c05(p *model.Prog, r *report.Result) {
 	r.Rule("C05.PO", "engine B over the functions reachable from Group.OnReadRtmpAvMsg / OnAvPacket / OnAvPacketFromPsPubSession / OnSdp / OnRtpPacket / CustomizePubSessionContext.Feed* with arbitrary arguments: index<len, 0<=low<=high<=cap, divisor>=1, make size bounded, no unchecked type assertion, no process terminator")
 	// every NAL unit handed to an iteration callback is non-empty: the consumers read nal[0]
 	nalIter := map[*ssa.Function]bool{p.Func("pkg/avc", "IterateNaluAvcc"): true, p.Func("pkg/avc", "IterateNaluAnnexb"): true}
+	// strict progress of hand-written scanning loops whose only exit tests watch a position that
+	// is not advanced by a positive constant on every path (C05.PROGRESS names them): the amount
+	// added on each back edge must be provably >= 1
+	progressAt := scanProgressSites(p, []string{"pkg/avc", "pkg/hevc", "pkg/aac", "pkg/h2645"})
 	extra := func(fn *ssa.Function, in ssa.Instruction, lin func(ssa.Value) po.Lin, seqLen func(ssa.Value) po.Lin) []po.ExtraOb {
+		if sites, ok := progressAt[in]; ok {
+			var out []po.ExtraOb
+			for _, s := range sites {
+				out = append(out, po.ExtraOb{Kind: "progress", Expr: "scan position " + valueToken(s.phi) + " advances", Goals: []po.Ineq{{L: lin(s.next).Sub(lin(s.phi)).Sub(po.Const(1)), Why: "the scan position grows by at least one on this way round the loop"}}})
+			}
+			return out
+		}
 		if !nalIter[fn] {
 			return nil
 		}
@@ -188,6 +199,7 @@ func c05(p *model.Prog, r *report.Result) {
 	c05Count(p, r)
 	c05Gate(p, r)
 	c05Split(p, r)
+	c05Progress(p, r, "C05.PROGRESS", []string{"pkg/avc", "pkg/hevc", "pkg/aac", "pkg/h2645", "pkg/remux", "pkg/mpegts", "pkg/base"}, 5)
 	r.Rule("C05.NILF", "fields that lal itself compares with nil somewhere (per-input state cleared when the input leaves, outputs created on demand) are, in every function reachable from the media entry points of the group, dereferenced only behind the non-nil edge of a test of the same field expression or a dominating non-nil store; reviewed exceptions are listed per (function, field)")
 	{
 		reach := p.Reachable(fanoutRoots(p), false, func(f *ssa.Function) bool { return model.IsLal(f) })
